@@ -44,6 +44,62 @@ def classify(rc, out, outdir):
     return None
 
 
+RES_BASE = """<?xml version="1.0" encoding="UTF-8"?>
+<sbe:messageSchema xmlns:sbe="http://fixprotocol.io/2016/sbe" package="res" id="1" version="0" byteOrder="littleEndian">
+<types>
+<type name="first" primitiveType="uint8"/>
+<composite name="messageHeader">
+<type name="blockLength" primitiveType="uint16"/>
+<type name="templateId" primitiveType="uint16"/>
+<type name="schemaId" primitiveType="uint16"/>
+<type name="version" primitiveType="uint16"/>
+%(hdr)s
+</composite>
+<composite name="groupSizeEncoding">
+<type name="blockLength" primitiveType="uint16"/>
+<type name="numInGroup" primitiveType="uint16"/>
+%(dim)s
+</composite>
+<composite name="cmp">
+<type name="x" primitiveType="uint8"/>
+%(cmp)s
+</composite>
+%(pub)s
+</types>
+<sbe:message name="m" id="1"%(mattr)s>
+<field name="f" id="1" type="first"/>
+<field name="c" id="2" type="cmp"/>
+%(fld)s
+<group name="g" id="10"%(gattr)s><field name="x" id="11" type="uint8"/></group>
+</sbe:message>
+</sbe:messageSchema>
+"""
+
+
+def resource_inputs():
+    out = []
+    for big in ("70000", "4294967295"):
+        k = '<type name="k" primitiveType="char" presence="constant" length="%s">abc</type>' % big
+        blank = {"hdr": "", "dim": "", "cmp": "", "pub": "", "fld": "", "mattr": "", "gattr": ""}
+        for slot in ("hdr", "dim", "cmp"):
+            d = dict(blank)
+            d[slot] = k
+            out.append(("char constant length=%s in %s composite" % (big, slot), RES_BASE % d))
+        d = dict(blank)
+        d["pub"], d["fld"] = k, '<field name="kf" id="3" type="k"/>'
+        out.append(("public char constant length=%s used by a field" % big, RES_BASE % d))
+        d = dict(blank)
+        d["pub"], d["fld"] = '<type name="arr" primitiveType="char" length="%s"/>' % big, '<field name="af" id="3" type="arr"/>'
+        out.append(("char array length=%s used by a field" % big, RES_BASE % d))
+        d = dict(blank)
+        d["mattr"] = ' blockLength="%s"' % big
+        out.append(("message blockLength=%s" % big, RES_BASE % d))
+        d = dict(blank)
+        d["gattr"] = ' blockLength="%s"' % big
+        out.append(("group blockLength=%s" % big, RES_BASE % d))
+    return out
+
+
 def run(tier, replay=None):
     rep = Report("C09", tier, "exploration")
     exe = repo.sbeppc("san")
@@ -81,6 +137,7 @@ def run(tier, replay=None):
                                     % (len(xmlmut.TOKENS_QUICK if quick else xmlmut.TOKENS), len(xmlmut.TAGS)),
                        "argv": "every argument vector of length <= %d over {--schema-name, --output-dir, --inject-include, --version, --help, --, -x, '', good.xml, missing.xml, dir/}" % (3 if quick else 4),
                        "includes": "self include, mutual include, missing file, directory, include of a valid file; every include graph over a root and two fragments with <= 2 includes each over %d targets" % (3 if quick else 5), "raw_inputs": [n for n, _ in xmlmut.RAW_INPUTS],
+                       "resource": "char constants / arrays / blockLength with declared sizes 70000 and 4294967295 in a header, dimension, ordinary composite and as public type; sbeppc-dbg under a 1.5 GB address-space limit, 300 s limit",
                        "build": "clang++ -O1 ASan+UBSan, sbeppc's own asserts and _GLIBCXX_ASSERTIONS on; 20 s limit per run"})
     jobs = []    # (label, opclass, argv builder)
     cases_dir = os.path.join(wd, "cases")
@@ -122,6 +179,11 @@ def run(tier, replay=None):
             files = {"a.xml": '<?xml version="1.0"?><messageSchema package="p" id="1" version="0"><include href="b.xml"/><include href="c.xml"/></messageSchema>',
                      "b.xml": frag(bl), "c.xml": frag(cl), "g.xml": good}
             jobs.append(("include-graph: b->%s c->%s" % (list(bl), list(cl)), "include-graph-enum", "files", files, None))
+    # declared sizes that make the legitimate output huge: a char constant is emitted as a literal with one escape per
+    # element, so its cost is linear in `length`; under a 1.5 GB address-space limit the allocation fails, which has to end
+    # in a diagnostic like any other rejection (found by the c09c agent's notes: std::bad_alloc escaped main())
+    for name, xml in resource_inputs():
+        jobs.append(("resource: " + name, "resource", "res", xml, None))
     # argv
     alphabet = ["--schema-name", "--output-dir", "--inject-include", "--version", "--help", "--", "-x", "", "good.xml", "missing.xml", "dir/"]
     for ln in range(0, (3 if quick else 4) + 1):
@@ -137,6 +199,14 @@ def run(tier, replay=None):
             if kind == "xml":
                 open(os.path.join(d, "in.xml"), "wb").write(payload)
                 cmd = [exe, "--output-dir", out, "in.xml"]
+            elif kind == "res":
+                open(os.path.join(d, "in.xml"), "w").write(payload)
+                cmd = ["prlimit", "--as=1500000000", repo.sbeppc("dbg"), "--output-dir", out, "in.xml"]
+                rc, txt = cxx.sh(cmd, timeout=300, cwd=d)
+                res = classify(rc, txt, out)
+                if res and res[0] == "files-left-after-rejection" and "std::bad_alloc" in txt and "length=4294967295" in label:
+                    res = ("files-left-after-out-of-memory:char-constant-length-4294967295", res[1])
+                return label, opclass, rc, res, (txt or "")[-300:]
             elif kind == "files":
                 for fn, tx in payload.items():
                     open(os.path.join(d, fn), "w").write(tx)
